@@ -580,6 +580,12 @@ def run(desc, ctx):
     def fn(s):
         dev.now = lambda: s.now
         cf = Crazyflie()
+        # when was a received packet matched against the pending requests?  (this callback runs right after the library's own
+        # all-packet callbacks, in the thread that dispatches the packet)
+        ob['dispatch_steps'] = {}
+        ob['send_steps'] = {}
+        cf.packet_received.callbacks.insert(0, lambda pk_: ob['dispatch_steps'].__setitem__(len(spec.rx) - 1, [s.steps, None]))
+        cf.packet_received.add_callback(lambda pk_: ob['dispatch_steps'].get(len(spec.rx) - 1, [None, None]).__setitem__(1, s.steps))
         done = ds.Event()
         cf.fully_connected.add_callback(lambda u: done.set())
         cf.connected.add_callback(lambda u: done.set())
@@ -626,7 +632,9 @@ def run(desc, ctx):
                     pk2.data = bytes(r2['pattern']) + bytes([r2['uid']])
                     ob['sent_at'][r2['uid']] = s.now
                     ob['sent_seq'][r2['uid']] = spec.seq
+                    st0 = s.steps
                     cf.send_packet(pk2, expected_reply=tuple(r2['pattern']), timeout=r2['T'])
+                    ob['send_steps'][r2['uid']] = (st0, s.steps)
         if chained:
             cf.add_port_callback(PORT, chain_cb)
         pend = sorted([r for r in reqs if r['at'] is not None], key=lambda r: r['at'])
@@ -639,7 +647,9 @@ def run(desc, ctx):
             pk.data = bytes(r['pattern']) + bytes([r['uid']])
             ob['sent_at'][r['uid']] = s.now
             ob['sent_seq'][r['uid']] = spec.seq
+            st0 = s.steps
             cf.send_packet(pk, expected_reply=tuple(r['pattern']), timeout=r['T'])
+            ob['send_steps'][r['uid']] = (st0, s.steps)
         if kind == 'reopen':
             # close at a quarter period around the pending timers, reopen a quarter period later
             T0 = reqs[0]['T']
@@ -754,11 +764,23 @@ def run(desc, ctx):
     reqs = [r for r in reqs if r['uid'] in ob['sent_at']]      # (a chained request whose parent was never answered is never issued)
     ctx.count('mon.requests_issued_from_the_callback_of_the_previous_answer_with_the_same_expectation',
               sum(1 for r in reqs if r.get('chain_of') is not None))
-    # order of events at one virtual instant: the link's own sequence numbers (a request issued from inside the callback
-    # that handles an answer comes after that answer)
-    events = sorted([(ob['sent_at'][r['uid']], ob['sent_seq'].get(r['uid'], 0) + 0.5, 'send', r) for r in reqs] +
-                    [(x[0], x[4], 'rx', x) for x in mine_rx], key=lambda e: (e[0], e[1]))
-    for (t, _, k, x) in events:
+    # Order of events: one clock for all threads, the scheduler's step count.  A request is registered somewhere between the
+    # step at which send_packet() was called and the step at which it returned (st0, st1); a received packet is matched against
+    # the pending requests between the two hooks around the library's all-packet callbacks (pre, post).  A packet that was
+    # received but never dispatched (the link was closed first) answers nothing.
+    rx_index = {id(x_): i_ for i_, x_ in enumerate(spec.rx)}
+    evs = []
+    for r in reqs:
+        st = ob['send_steps'].get(r['uid'])
+        if st is not None:
+            evs.append((st[1] - 0.25, ob['sent_at'][r['uid']], 'send', r))
+    for x in mine_rx:
+        pp = ob['dispatch_steps'].get(rx_index.get(id(x)))
+        if pp is not None and pp[0] is not None and pp[1] is not None:
+            evs.append((pp[0], x[0], 'rx', x))
+    evs.sort(key=lambda e: e[0])
+    ambiguous = False
+    for (_, t, k, x) in evs:
         if close_at is not None and t > close_at + EPS:
             break
         if k == 'send':
@@ -766,17 +788,35 @@ def run(desc, ctx):
         else:
             data = tuple(x[3])
             chan = x[2] & 3
-            best = None
-            for (c, p), uid in pending.items():
-                if c == chan and p == data[:len(p)] and (best is None or len(p) >= len(best[1])):
-                    best = ((c, p), p, uid)
+            pre, post = ob['dispatch_steps'][rx_index[id(x)]]
+
+            def attribution(pend):
+                b = None
+                for (c, p), uid in pend.items():
+                    if c == chan and p == data[:len(p)] and (b is None or len(p) >= len(b[1])):
+                        b = ((c, p), p, uid)
+                return b
+            best = attribution(pending)
+            # requests whose registration window overlaps the matching window of this packet: both orders are possible
+            doubt = {(r_['chan'], tuple(r_['pattern'])): r_['uid'] for r_ in reqs
+                     if r_['uid'] in ob['send_steps'] and r_['uid'] not in cancel and
+                     not (ob['send_steps'][r_['uid']][1] <= pre or ob['send_steps'][r_['uid']][0] >= post)}
+            if doubt:
+                without = {k_: v_ for k_, v_ in pending.items() if k_ not in doubt}
+                with_all = dict(without)
+                with_all.update(doubt)
+                a1, a2 = attribution(without), attribution(with_all)
+                if (None if a1 is None else a1[2]) != (None if a2 is None else a2[2]):
+                    ambiguous = True
             if best is not None:
                 cancel[best[2]] = t
                 del pending[best[0]]
                 ctx.count('mon.cancelled_by_reply')
     # ---- per request: observed transmission times vs expected
     sig = []
-    for r in reqs:
+    if ambiguous:
+        ctx.count('mon.cases_not_judged_per_request_because_an_answer_arrived_in_the_instant_a_matching_request_was_sent')
+    for r in ([] if ambiguous else reqs):
         uid, T, t0 = r['uid'], r['T'], ob['sent_at'][r['uid']]
         times = [t[0] for t in mine_tx if t[3][-1] == uid and t[1] == ob['session1']]
         stop = cancel.get(uid)
